@@ -27,10 +27,20 @@ var diskKind bool
 
 var defaultCap = hk.LRUMaxSessionCount() // value of rsm.LRUMaxSessionCount before the harness touches it
 
+// quietLogger discards the library's log text; Panicf keeps its meaning.
+type quietLogger struct{}
+
+func (quietLogger) SetLevel(logger.LogLevel)        {}
+func (quietLogger) Debugf(string, ...interface{})   {}
+func (quietLogger) Infof(string, ...interface{})    {}
+func (quietLogger) Warningf(string, ...interface{}) {}
+func (quietLogger) Errorf(string, ...interface{})   {}
+func (quietLogger) Panicf(format string, args ...interface{}) {
+	panic(fmt.Sprintf(format, args...))
+}
+
 func quiet() {
-	for _, p := range []string{"rsm", "raftpb", "raft", "dragonboat", "logdb", "transport", "config", "settings", "server", "utils", "tan", "registry"} {
-		logger.GetLogger(p).SetLevel(logger.CRITICAL)
-	}
+	logger.SetLoggerFactory(func(string) logger.ILogger { return quietLogger{} })
 }
 
 func newFS() hk.IFS { return hk.NewMemFS() }
